@@ -10,7 +10,7 @@ Oracle    on the implementation's trace, independent of the model, per `aux x if
           x is only entered when its (clock-only) needs hold; while x stays running the frames below m and the
           recorder deeds after the clause in m are silent and x runs once per run of the framer; when x
           completes the frames below m recur in the same tick without enter actions and x is exited; when m
-          is exited x is exited too.
+          is exited x is exited too; a running x ends in no other way.
 """
 import core, floeng, floref
 from props.c07 import FloCheck
@@ -24,7 +24,8 @@ class CHECK(FloCheck):
     N_THOROUGH = 10000
     N_SEARCH = 500
     RULE = ("floeng.gen_susp programs with recorder deeds in all six contexts of every frame (85 %) and gen_program "
-            "(15 %): conditional auxiliaries at depths 1-4, two per frame, nested in auxiliaries; needs on a tick counter "
+            "(15 %): conditional auxiliaries at depths 1-4, two per frame, nested in auxiliaries, 12 % of the clauses reuse an "
+            "auxiliary another clause names; needs on a tick counter "
             "that flip at chosen ticks; auxiliaries done in their first run / after 0-3 more runs / never; transitions to "
             "self, ancestors, descendants, other subtrees; stop/abort/start bids. Non-trivial = a conditional auxiliary is "
             "started; distinct by program")
@@ -48,7 +49,7 @@ class CHECK(FloCheck):
     def generate(self, rng, n, tier):
         for _ in range(n):
             if rng.random() < 0.85:
-                yield {"prog": floeng.fill_recs(floeng.gen_susp(rng, full=True)), "gen": "susp"}
+                yield {"prog": floeng.fill_recs(floeng.gen_susp(rng, full=True, share=0.12)), "gen": "susp"}
             else:
                 yield {"prog": floeng.fill_recs(floeng.gen_program(rng)), "gen": "mixed"}
 
@@ -136,6 +137,12 @@ class CHECK(FloCheck):
                     ran = prev[i]["status"] in ("started", "running") and snap[i]["status"] == "running" and \
                         snap[i]["recurred"] != prev[i]["recurred"]
                     same = prev[i]["active"] == snap[i]["active"] and prev[i]["active"] is not None
+                    # (f) a running x ends only by running to completion or with the exit of its main frame
+                    if (was and snap[x]["done"] and not x_entered and "exit" in ctx_of[mf]
+                            and not any(e[0] == mf and e[1] == "exit" for e in events)
+                            and snap[x]["recurred"] == prev[x]["recurred"] and not xin):
+                        return ("%s: conditional aux m%d of f%d was running, did not run in this tick and f%d was not exited, "
+                                "but it is done now" % (where, x, mf, mf))
                     if not (was and ran and same):
                         # (e) if the main frame was exited in this tick, a running x was exited with it
                         if was and any(e[0] == mf and e[1] == "exit" for e in events) and not x_entered:
